@@ -73,6 +73,88 @@ def _overridden_hooks(plugin_cls: type, base: type) -> List[str]:
     )
 
 
+def _process_name_fallback(t: Dict[str, Any]) -> str:
+    """C18: the string literal `utils.process_name` returns for names made of underscores only
+    (the single `return "<literal>"` of that function); "" + a recorded problem when it is gone."""
+    try:
+        tree = ast.parse((common.REPO / "ariadne_codegen" / "utils.py").read_text())
+        fn = [n for n in ast.walk(tree) if isinstance(n, ast.FunctionDef) and n.name == "process_name"][0]
+        lits = [r.value.value for r in ast.walk(fn)
+                if isinstance(r, ast.Return) and isinstance(r.value, ast.Constant) and isinstance(r.value.value, str)]
+        if len(lits) == 1:
+            return lits[0]
+        raise ValueError(f"{len(lits)} literal returns")
+    except Exception as e:  # noqa: BLE001
+        t.setdefault("_problems", []).append(f"underscoreFallbackName: {e!r}")
+        return ""
+
+
+C19_SENSITIVE_ATTRS = ("ast_node", "extension_ast_nodes", "default_value", "description", "deprecation_reason",
+                       "specified_by_url")
+
+
+def _c19_tables(t: Dict[str, Any]) -> None:
+    """C19: data of schema.py (graphql suffixes, flags of the introspection query that is sent) and the list of every
+    place in the client strategy that reads an attribute whose value differs between an SDL-built and an
+    introspection-built graphql-core schema (AST nodes, descriptions, deprecation, default values)."""
+    try:
+        src = (common.REPO / "ariadne_codegen" / "schema.py").read_text()
+        tree = ast.parse(src)
+        fns = {n.name: n for n in ast.walk(tree) if isinstance(n, ast.FunctionDef)}
+        exts: List[str] = []
+        for n in ast.walk(fns["walk_graphql_files"]):
+            if isinstance(n, ast.Assign) and isinstance(n.value, (ast.Tuple, ast.List, ast.Set)):
+                exts = [e.value for e in n.value.elts if isinstance(e, ast.Constant) and isinstance(e.value, str)]
+        t["graphqlExtensions"] = exts
+        flags: List[tuple] = []
+        calls = [n for n in ast.walk(fns["introspect_remote_schema"]) if isinstance(n, ast.Call)
+                 and getattr(n.func, "id", getattr(n.func, "attr", "")) == "get_introspection_query"]
+        if len(calls) != 1 or calls[0].args:
+            raise ValueError("get_introspection_query call not recognised")
+        for kw in calls[0].keywords:
+            flags.append((kw.arg, repr(ast.literal_eval(kw.value))))
+        t["introspectionQueryFlags"] = flags
+    except Exception as e:  # noqa: BLE001
+        t["graphqlExtensions"] = []
+        t["introspectionQueryFlags"] = [("unreadable", "True")]
+        t.setdefault("_problems", []).append(f"c19 schema.py tables: {e!r}")
+    try:
+        import inspect
+
+        from graphql import get_introspection_query
+
+        t["introspectionQueryDefaults"] = [(n, repr(p.default)) for n, p in inspect.signature(get_introspection_query).parameters.items()]
+    except Exception as e:  # noqa: BLE001
+        t["introspectionQueryDefaults"] = []
+        t.setdefault("_problems", []).append(f"introspectionQueryDefaults: {e!r}")
+    uses: List[tuple] = []
+    root = common.REPO / "ariadne_codegen"
+    for f in sorted(root.rglob("*.py")):
+        rel = f.relative_to(common.REPO).as_posix()
+        if "/graphql_schema_generators/" in rel or "/dependencies/" in rel:
+            continue
+        try:
+            tree = ast.parse(f.read_text())
+        except (OSError, SyntaxError):
+            uses.append((rel, "<unparseable>", "?"))
+            continue
+
+        def visit(node: ast.AST, qual: str) -> None:
+            for child in ast.iter_child_nodes(node):
+                q = qual
+                if isinstance(child, (ast.FunctionDef, ast.AsyncFunctionDef, ast.ClassDef)):
+                    q = (qual + "." if qual else "") + child.name
+                if isinstance(child, ast.Attribute) and child.attr in C19_SENSITIVE_ATTRS:
+                    uses.append((rel, qual or "<module>", child.attr))
+                if isinstance(child, ast.Constant) and isinstance(child.value, str) and child.value in C19_SENSITIVE_ATTRS \
+                        and isinstance(node, ast.Call) and getattr(node.func, "id", "") in ("getattr", "hasattr"):
+                    uses.append((rel, qual or "<module>", child.value))
+                visit(child, q)
+
+        visit(tree, "")
+    t["sourceSensitiveUses"] = sorted(set(uses))
+
+
 def collect() -> Dict[str, Any]:
     sys.path.insert(0, str(common.REPO)) if str(common.REPO) not in sys.path else None
     c = _imp("ariadne_codegen.client_generators.constants")
@@ -82,6 +164,7 @@ def collect() -> Dict[str, Any]:
     t["kwlist"] = list(keyword.kwlist)
     t["softkwlist"] = list(keyword.softkwlist)
     t["pydanticReserved"] = list(u.PYDANTIC_RESERVED_FIELD_NAMES)
+    t["underscoreFallbackName"] = _process_name_fallback(t)  # C18: literal returned by utils.process_name for all-underscore names
     t["simpleTypeMap"] = list(c.SIMPLE_TYPE_MAP.items())
     t["inputScalarsMap"] = list(c.INPUT_SCALARS_MAP.items())
     t["typenameFieldName"] = c.TYPENAME_FIELD_NAME
@@ -113,6 +196,40 @@ def collect() -> Dict[str, Any]:
         except Exception as e:  # table unreadable: an empty table breaks the proofs that need it
             t[key] = []
             t.setdefault("_problems", []).append(f"{key}: {e!r}")
+    # C13: the subprotocol constant of the two async clients, and the keyword arguments the INSTALLED
+    # websockets.connect accepts (its own named parameters + those of loop.create_connection, to
+    # which it forwards **kwargs) -- reference data about third-party code, see Spec/WsConnect.lean
+    for key, modname in (
+        ("wsSubprotocolAsync", "ariadne_codegen.client_generators.dependencies.async_base_client"),
+        ("wsSubprotocolAsyncOT", "ariadne_codegen.client_generators.dependencies.async_base_client_open_telemetry"),
+    ):
+        try:
+            t[key] = str(_imp(modname).GRAPHQL_TRANSPORT_WS)
+        except Exception as e:
+            t[key] = ""
+            t.setdefault("_problems", []).append(f"{key}: {e!r}")
+    try:
+        import asyncio
+        import inspect
+
+        import websockets
+
+        named = [
+            n
+            for n, p in inspect.signature(websockets.connect.__init__).parameters.items()
+            if n != "self" and p.kind in (p.POSITIONAL_OR_KEYWORD, p.KEYWORD_ONLY)
+        ]
+        fwd = [
+            n
+            for n, p in inspect.signature(asyncio.AbstractEventLoop.create_connection).parameters.items()
+            if n != "self" and p.kind in (p.POSITIONAL_OR_KEYWORD, p.KEYWORD_ONLY)
+        ]
+        t["wsConnectAccepted"] = named + [n for n in fwd if n not in named]
+        t["websocketsVersion"] = str(websockets.__version__)
+    except Exception as e:
+        t["wsConnectAccepted"] = []
+        t["websocketsVersion"] = ""
+        t.setdefault("_problems", []).append(f"wsConnectAccepted: {e!r}")
     t["commentsStrategies"] = [e.value for e in s.CommentsStrategy]
     t["strategies"] = [e.value for e in s.Strategy]
     cs_fields = []
@@ -139,6 +256,33 @@ def collect() -> Dict[str, Any]:
     except Exception as e:
         t["schemaGenConstants"] = []
         t.setdefault("_problems", []).append(f"schemaGenConstants: {e!r}")
+    # C16: the tuple / dict constants of the graphqlschema strategy, and reference data about the
+    # installed graphql-core that Spec/PySchemaEval.lean evaluates against
+    try:
+        gc = _imp("ariadne_codegen.graphql_schema_generators.constants")
+        t["schemaStandardTypes"] = [str(x) for x in gc.STANDARD_TYPES]
+        t["schemaStandardScalars"] = [(str(k), str(v)) for k, v in gc.STANDARD_SCALARS.items()]
+    except Exception as e:
+        t["schemaStandardTypes"] = []
+        t["schemaStandardScalars"] = []
+        t.setdefault("_problems", []).append(f"schemaStandardTypes: {e!r}")
+    try:
+        import graphql as _g
+
+        t["gqlReservedTypes"] = [str(k) for k in _g.GraphQLNamedType.reserved_types]
+        t["gqlStdScalarExports"] = [
+            (n, getattr(_g, n).name)
+            for n in sorted(dir(_g))
+            if n.startswith("GraphQL") and isinstance(getattr(_g, n), _g.GraphQLScalarType)
+        ]
+        t["gqlDirectiveLocations"] = [m.name for m in _g.DirectiveLocation]
+        t["gqlVersion"] = str(_g.version)
+    except Exception as e:
+        t["gqlReservedTypes"] = []
+        t["gqlStdScalarExports"] = []
+        t["gqlDirectiveLocations"] = []
+        t["gqlVersion"] = ""
+        t.setdefault("_problems", []).append(f"gql tables: {e!r}")
     # plugin hooks
     try:
         pb = _imp("ariadne_codegen.plugins.base")
@@ -159,6 +303,17 @@ def collect() -> Dict[str, Any]:
         t["pluginHooks"] = []
         t["pluginOverrides"] = []
         t.setdefault("_problems", []).append(f"plugins: {e!r}")
+    _c19_tables(t)
+    # C17: names of the bundled dependency files PackageGenerator copies / checks for uniqueness
+    try:
+        t["packageFileNames"] = [
+            ("base_model", Path(c.BASE_MODEL_FILE_PATH).name),
+            ("base_operation", Path(c.BASE_OPERATION_FILE_PATH).name),
+            ("exceptions", Path(c.EXCEPTIONS_FILE_PATH).name),
+        ]
+    except Exception as e:  # noqa: BLE001
+        t["packageFileNames"] = []
+        t.setdefault("_problems", []).append(f"packageFileNames: {e!r}")
     return t
 
 
@@ -190,6 +345,7 @@ def render(t: Dict[str, Any]) -> str:
     strlist("kwlist", "`keyword.kwlist` of the interpreter running the generator")
     strlist("softkwlist", "`keyword.softkwlist`")
     strlist("pydanticReserved", "`utils.PYDANTIC_RESERVED_FIELD_NAMES` (public attributes of pydantic.BaseModel)")
+    string("underscoreFallbackName", "literal returned by `utils.process_name` for all-underscore names (C18)")
     pairs("simpleTypeMap", "`constants.SIMPLE_TYPE_MAP`")
     pairs("inputScalarsMap", "`constants.INPUT_SCALARS_MAP`")
     string("typenameFieldName", "`constants.TYPENAME_FIELD_NAME`")
@@ -213,13 +369,33 @@ def render(t: Dict[str, Any]) -> str:
     L.append("")
     pairs("wsTypesAsync", "`GraphQLTransportWSMessageType` (member name, wire value) in async_base_client.py")
     pairs("wsTypesAsyncOT", "`GraphQLTransportWSMessageType` in async_base_client_open_telemetry.py")
+    string("wsSubprotocolAsync", "`GRAPHQL_TRANSPORT_WS` in async_base_client.py")
+    string("wsSubprotocolAsyncOT", "`GRAPHQL_TRANSPORT_WS` in async_base_client_open_telemetry.py")
+    strlist("wsConnectAccepted", "keyword arguments accepted by the installed `websockets.connect` (own parameters + `loop.create_connection`'s)")
+    string("websocketsVersion", "`websockets.__version__` of the interpreter running the checks")
     strlist("commentsStrategies", "`settings.CommentsStrategy` values")
     strlist("strategies", "`settings.Strategy` values")
     pairs("clientSettingsFields", "`ClientSettings` dataclass fields with `repr` of their defaults")
     pairs("schemaSettingsFields", "`GraphQLSchemaSettings` dataclass fields with `repr` of their defaults")
     pairs("schemaGenConstants", "string constants of graphql_schema_generators/constants.py")
+    strlist("schemaStandardTypes", "`graphql_schema_generators.constants.STANDARD_TYPES` (C16)")
+    pairs("schemaStandardScalars", "`graphql_schema_generators.constants.STANDARD_SCALARS` (GraphQL name, name imported from graphql) (C16)")
+    strlist("gqlReservedTypes", "installed graphql-core: `GraphQLNamedType.reserved_types` keys (constructing a type so named raises TypeError)")
+    pairs("gqlStdScalarExports", "installed graphql-core: exported specified scalar objects (export name, `.name`)")
+    strlist("gqlDirectiveLocations", "installed graphql-core: `DirectiveLocation` member names")
+    string("gqlVersion", "installed graphql-core version")
     strlist("pluginHooks", "public hook names of `plugins.base.Plugin`")
     pairs("pluginOverrides", "hooks each bundled plugin overrides (comma separated)")
+    strlist("graphqlExtensions", "`extensions` of `schema.walk_graphql_files` (C19)")
+    pairs("introspectionQueryFlags", "keyword arguments of the `get_introspection_query(...)` call in `schema.introspect_remote_schema` (C19)")
+    pairs("introspectionQueryDefaults", "parameters of the installed graphql-core `get_introspection_query` with `repr` of their defaults (C19)")
+    pairs("packageFileNames", "file names of the bundled dependency modules copied into every package (C17)")
+    L.append("/-- (file, enclosing function, attribute): every read of a source-sensitive schema attribute in the client strategy (C19) -/")
+    L.append(
+        "def sourceSensitiveUses : List (String × String × String) := "
+        + ("[]" if not t["sourceSensitiveUses"] else "\n  [" + ",\n   ".join(f"({lstr(a)}, {lstr(b)}, {lstr(c)})" for a, b, c in t["sourceSensitiveUses"]) + "]")
+    )
+    L.append("")
     L.append("end Ariadne.Tables")
     return "\n".join(L) + "\n"
 
